@@ -124,8 +124,19 @@ let run_cmd (cmd : string) (a : string list) : string =
   | "close", [] -> do_step CClose
   | "begin", [w; id] -> do_step (CBegin (w = "w", n_of_tok id))
   | "commit", [] -> do_step CCommit
+  | "commitfault", [k; _kind] ->
+    (* Commit with an I/O error after k complete record writes *)
+    (match !world with
+     | Some ({ w_tx = TxActive t } as w) ->
+       spec_check !cur_call CCommit;
+       let (w', ok) = do_commit (Some (let rec nat_of i = if i <= 0 then O else S (nat_of (i - 1)) in nat_of (Stdlib.int_of_string k))) w t in
+       world := Some w'; disk := w'.w_disk; if ok then "ok" else "err"
+     | _ -> "err")
   | "rollback", [] -> do_step CRollback
   | _ ->
-    (match op_of cmd a with
-     | Some o -> do_step (COp o)
-     | None -> failwith ("unknown command: " ^ cmd))
+    (match Dsl.run_cmd cmd a with
+     | Some r -> r
+     | None ->
+       (match op_of cmd a with
+        | Some o -> do_step (COp o)
+        | None -> failwith ("unknown command: " ^ cmd)))
